@@ -212,7 +212,9 @@ func (fr *Frame) intercept(st *State, fn *ssa.Function, pkg string, args []Val, 
 			ex.set(st, "FileClosed", Store(fc, f, TFalse))
 		}
 		return Val{Tup: []Val{{T: f}, {T: e}}}, true
-	case "github.com/hashicorp/serf/serf.EventType.String", "github.com/hashicorp/serf/serf.MemberStatus.String":
+	case "github.com/hashicorp/serf/serf.EventType.String", "github.com/hashicorp/serf/serf.MemberStatus.String",
+		"github.com/hashicorp/serf/serf.QueryResponse.AckCh", "github.com/hashicorp/serf/serf.QueryResponse.ResponseCh", "github.com/hashicorp/serf/serf.QueryResponse.Deadline":
+		// (and the accessors of a query's channels and deadline: fields that are set once when the query is created)
 		// the name of an event kind / member status: a pure function of the value (the serf package is outside the
 		// agent's scope)
 		if !ex.w.inScope(pkg) {
